@@ -28,7 +28,7 @@ RULE = ("per transport class (Client, ClientTls, Incomer, IncomerTls, serial Dri
         "1..3 bytes, would-block}, one connection-loss result at every position, plus seeded long random "
         "tx/rx interleavings; random cases also with caller-owned bytearray messages and one message object queued twice, and with `catRxbs` drains between receives; distinct = distinct (class, queue, queueing mode, result sequence); non-trivial = at "
         "least one result that is not 'full' (a re-queue or a blocked read happened)")
-RULE = __import__("vf.core", fromlist=["rule_add"]).rule_add(RULE, 'also messages of length 0, raises out of serviceTxes are violations')
+RULE = __import__("vf.core", fromlist=["rule_add"]).rule_add(RULE, 'also messages of length 0, raises out of serviceTxes are violations; also clients closed by their owner with messages queued, serviced while closed and connected again')
 META = {"engine": "D I/O doubles", "technique": "fault enumeration on socket doubles; byte conservation with unique bytes",
         "level_text": "every send/recv result sequence up to the stated bound is executed on the real classes and "
                       "byte conservation is decided after every service call; longer sequences are sampled",
